@@ -14,6 +14,34 @@ fn main() {
     if args.len() < 2 {
         usage();
     }
+    if args[1] == "gen-run" {
+        // Debug helper: vcheck gen-run <PROP:sub> <choice-bytes file>
+        install_panic_hook();
+        let name = args.get(2).cloned().unwrap_or_else(|| usage());
+        let target = gen::target(&name).expect("known target");
+        let data = match args.get(3) {
+            Some(p) if p.starts_with('@') => target.record(p[1..].parse().expect("seed")).expect("recordable"),
+            Some(p) => std::fs::read(p).expect("readable"),
+            None => Vec::new(),
+        };
+        let mut tally = Tally::default();
+        eprintln!("input: {} bytes; bridge self-test over 50 seeds: {:?}", data.len(), (0..50).map(|i| target.roundtrip(i)).filter(|r| *r == Some(true)).count());
+        let started = Instant::now();
+        let r = target.run(&data, &mut tally);
+        println!("{name}: {} bytes -> {:?} in {:?}; labels {:?}", data.len(), r.map_err(|f| f.signature), started.elapsed(), tally.labels);
+        std::process::exit(0);
+    }
+    if args[1] == "gen-campaign" {
+        // Debug helper: vcheck gen-campaign <PROP:sub> <runs per job>
+        install_panic_hook();
+        let name = args.get(2).cloned().unwrap_or_else(|| usage());
+        let runs: u64 = args.get(3).and_then(|r| r.parse().ok()).unwrap_or(20_000);
+        let ctx = Ctx { prop: name.split(':').next().unwrap_or("").to_string(), tier: Tier::Thorough, seed: 1, shards: 16, known: load_known_findings(), scale: 1.0 };
+        let started = Instant::now();
+        let res = gen::campaign(&ctx, &name, runs);
+        println!("{name}: {:?} evaluations {} labels {:?} sums {:?} violations {:?} inconclusive {:?}", started.elapsed(), res.tally.evaluations, res.tally.labels, res.tally.sums, res.violations.iter().map(|v| (&v.signature, &v.replay_path)).collect::<Vec<_>>(), res.inconclusive);
+        std::process::exit(0);
+    }
     let prop = args[1].clone();
     let mut tier = match std::env::var("VERIF_TIER").as_deref() {
         Ok("thorough") => Tier::Thorough,
